@@ -84,6 +84,12 @@ SanNames == {"trim", "lowercase", "uppercase", "Trim", "TRIM", "strip", "finite"
 SliceS ==
   {Src("string", <<SanB(<<S(a), S(b)>>)>>, AllFeats) : a \in SanNames, b \in SanNames}
   \cup {Src("string", <<SanB(<<S(a)>>)>>, AllFeats) : a \in SanNames}
+  \* lists of three: a duplicate that is NOT adjacent to its twin (and duplicate-free controls)
+  \cup {Src("string", <<SanB(<<S(a), S(b), S(c)>>)>>, AllFeats) : a \in {"trim", "lowercase", "uppercase"}, b \in {"trim", "lowercase"}, c \in {"trim", "lowercase", "uppercase"}}
+  \cup {Src("string", <<ValB(<<V(a, 1, "lit"), V(b, 3, "lit"), V(c, 1, "lit")>>)>>, AllFeats) :
+           a \in {"not_empty", "len_char_min"}, b \in {"len_char_max", "not_empty"}, c \in {"not_empty", "len_char_min"}}
+  \cup {Src(fam, <<ValB(<<V(a, 1, "lit"), V(b, 3, "lit"), V(c, 1, "lit")>>)>>, AllFeats) :
+           fam \in {"int", "float"}, a \in {"greater_or_equal", "greater"}, b \in {"less_or_equal", "less"}, c \in {"greater_or_equal", "greater"}}
   \cup {Src(fam, <<SanB(<<S(a)>>)>>, AllFeats) : fam \in {"int", "float", "any"}, a \in {"trim", "lowercase", "with"}}
   \cup {Src("string", <<ValB(<<V("len_char_min", p[1], s1), V("len_char_max", p[2], s2)>>)>>, AllFeats) : p \in Pos, s1 \in {"lit", "expr"}, s2 \in {"lit", "expr"}}
   \cup {Src("string", <<ValB(<<V(a, 1, "lit"), V(b, 1, "lit")>>)>>, AllFeats) : a \in {"not_empty", "len_char_min", "NotEmpty", "finite", "greater"}, b \in {"not_empty", "len_char_max"}}
